@@ -56,9 +56,70 @@ def probe_known(ctx):
             ctx.violation("%s: unstable with gamma=0" % name, dict(entry=name, gamma=0.0, probe=True))
 
 
+def rhs_correspondence(ctx, drv):
+    """captured right-hand sides vs the Lean models at the initial state and at perturbed states"""
+    import oderhs
+    cap = oderhs.Capture()
+    reqs, metas = [], []
+    cap.install()
+    try:
+        for name, e in odes.E.items():
+            if e["scalar"] or e["discrete"]:
+                continue
+            for k in range(ctx.scale(3, 20)):
+                style = e["ic"][k % len(e["ic"])]
+                G, gkind = odes.graph(ctx.rng, small=e["small"])
+                tau, gamma = ctx.rng.choice([(0.5, 1.0), (1.0, 0.25), (2.0, 1.0)])
+                kw, desc = odes.ic_kwargs(name, style, G, ctx.rng)
+                extra = {}
+                if e["nodelevel"] and ctx.rng.random() < 0.5 and "pair" not in name:
+                    for u, v in G.edges():
+                        G.edges[u, v]["w"] = ctx.rng.choice([0.5, 1.0, 2.0])
+                    for u in G:
+                        G.nodes[u]["r"] = ctx.rng.choice([0.5, 1.0, 2.0])
+                    extra = dict(transmission_weight="w", recovery_weight="r")
+                n0 = len(cap.calls)
+                try:
+                    odes.call(name, G, kw, tau, gamma, 0.0, 1.0, 3, False, extra=extra)
+                except Exception:
+                    continue
+                for func, y0, args in cap.calls[n0:]:
+                    for j in range(3):
+                        y = oderhs.perturb(y0, ctx.rng, j)
+                        rq = oderhs.request(func, y, args, G)
+                        if rq is None:
+                            ctx.count("rhs:unmodelled:" + func.__name__)
+                            break
+                        try:
+                            with np.errstate(all="ignore"):
+                                dy = np.asarray(func(y.copy(), 0.0, *args), dtype=float)
+                        except Exception:
+                            continue
+                        if not np.all(np.isfinite(dy)):
+                            continue
+                        tol = rq.pop("tol", 1e-9)
+                        reqs.append(rq)
+                        metas.append((dict(entry=name, stream="rhs", rhs=func.__name__, model=rq["model"], p=rq["p"], v=rq["v"],
+                                           graph=dict(kind=gkind, n=G.order())), dy, tol))
+                        ctx.count("rhs:" + rq["model"])
+    finally:
+        cap.remove()
+    for (rep, dy, tol), m in zip(metas, drv.batch(reqs)):
+        ctx.traces += 1
+        ctx.case(rep, nontrivial=True)
+        if not m.get("ok"):
+            ctx.disagreement("rhs-driver", dict(rep, model_resp=m))
+            continue
+        want = np.array([float(F(x)) for x in m["dy"]])
+        scale = max(1.0, float(np.max(np.abs(want))), float(np.max(np.abs(dy))))
+        if want.shape != dy.shape or float(np.max(np.abs(want - dy))) > tol * scale:
+            ctx.disagreement("rhs:" + rep["model"], dict(rep, impl=[float(x) for x in dy], lean=[float(x) for x in want]))
+
+
 def run(ctx):
     drv = common.LeanDriver()
     probe_known(ctx)
+    rhs_correspondence(ctx, drv)
     reqs, metas = [], []
     per = ctx.scale(6, 40)
     for name, e in odes.E.items():
